@@ -92,3 +92,43 @@ CONTRACTS = [
     rule('t_error', '.+', {'illegal_character_is_a_located_error': 'raised and exc.lineno == old(t.lineno)'},
          raises={'PySmiLexerError': True}, serves=('C11',)),
 ]
+
+
+# ---------------------------------------------------------------------------------------------------- reset
+# C02 / C11 / C12: a parse starts with a fresh PLY lexer (state INITIAL, line 1) whatever the previous text left
+# behind - reset() builds a new one on every call.  lex.lex is PLY's (trusted): it returns a new lexer object in its
+# initial state, built from the rule functions of `module`.
+def _lex_lex(it, args, kwargs):
+    from pyvc import pv
+    g = it.ctx.ghost
+    g['lex_builds'] = g.get('lex_builds', 0) + 1
+    o = pv.VObj('Lexer')
+    o.fields['lineno'] = 1
+    o.fields['state'] = 'INITIAL'
+    g['lex_last'] = o
+    g['lex_module'] = kwargs.get('module')
+    g['lex_reflags'] = kwargs.get('reflags')
+    return o
+
+
+def _reset_setup(it, env):
+    it.world.models['ply.lex.lex'] = _lex_lex
+    it.world.models['ply.lex.NullLogger'] = lambda it_, a, k: None
+    it.ctx.ghost['lex_builds'] = 0
+
+
+from pyvc import pybuiltins as _BL
+_BL.SPEC_FUNCS.setdefault('ghostv', lambda it, args, kwargs: it.ctx.ghost.get(args[0]))
+
+CONTRACTS += [
+    Contract(id='lexer.reset', file=FILE, func='SmiV2Lexer.reset', serves=['C02', 'C11', 'C12'],
+             params={'self': Obj('SmiV2Lexer', _tempdir=Str, lexer=Any)}, setup=_reset_setup,
+             cases=[('after-a-parse', {'params': {'self': Obj('SmiV2Lexer', _tempdir=Str,
+                                                              lexer=Obj('Lexer', lineno=Int, state=Str))}}),
+                    ('first', {'params': {'self': Obj('SmiV2Lexer', _tempdir=Str, lexer=NoneT)}})],
+             ensures={
+                 'a_new_lexer_is_built_on_every_reset': 'not raised and ghostv("lex_builds") == 1 and self.lexer is ghostv("lex_last")',
+                 'fresh_state': 'self.lexer.lineno == 1 and self.lexer.state == "INITIAL"',
+                 'built_from_this_rule_set': 'ghostv("lex_module") is self',
+             }),
+]
